@@ -897,7 +897,7 @@ fn oracle_times() -> bool {
         v
     };
     fn set(q: &VfsPath, f: F, t: SystemTime) -> VfsResult<()> { match f { F::C => q.set_creation_time(t), F::M => q.set_modification_time(t), F::A => q.set_access_time(t) } }
-    for kind in ["memory", "altroot", "overlay", "physical", "altroot.physical"] {
+    for kind in ["memory", "altroot", "overlay", "overlay.sub", "physical", "altroot.physical"] {
         let physical = kind.contains("physical");
         for target in ["f", "d", ""] {
             for f1 in [F::C, F::M, F::A] { for f2 in [F::C, F::M, F::A] { for i1 in 0..all_times.len() {
@@ -905,7 +905,14 @@ fn oracle_times() -> bool {
                 if physical && !(host_ok[i1] && host_ok[i2]) { continue; }
                 let (t1, t2) = (all_times[i1], all_times[i2]);
                 r.case();
-                let (base, extra) = make_backend(if physical { "physical" } else { kind });
+                // overlay.sub: the layers are sub-directories of their filesystems; the root of the overlay is then NOT the root of the upper filesystem
+                let under_upper: Option<VfsPath> = if kind == "overlay.sub" { Some(MemoryFS::new().into()) } else { None };
+                let (base, extra) = if let Some(um) = &under_upper {
+                    let lm: VfsPath = MemoryFS::new().into();
+                    um.join("up").unwrap().create_dir().unwrap(); lm.join("low").unwrap().create_dir().unwrap();
+                    let b: (VfsPath, Box<dyn Fn() -> Option<String>>) = (OverlayFS::new(&[um.join("up").unwrap(), lm.join("low").unwrap()]).into(), Box::new(|| None)); b
+                } else { make_backend(if physical { "physical" } else { kind }) };
+                let outside_before = under_upper.as_ref().map(|um| um.metadata().map(|m| (m.created, m.modified, m.accessed)).ok());
                 let root: VfsPath = if kind == "altroot.physical" { base.join("r").unwrap().create_dir().unwrap(); AltrootFS::new(base.join("r").unwrap()).into() } else { base.clone() };
                 root.join("f").unwrap().create_file().unwrap().write_all(b"abc").unwrap();
                 root.join("d").unwrap().create_dir().unwrap();
@@ -930,6 +937,7 @@ fn oracle_times() -> bool {
                         if md.len != cur.len || md.file_type != cur.file_type { return Some(format!("step {} set {:?}: len/type changed", step, f)); }
                         cur = md;
                     }
+                    if let Some(um) = &under_upper { if um.metadata().map(|m| (m.created, m.modified, m.accessed)).ok() != outside_before.clone().unwrap() { return Some("a timestamp of the upper filesystem's own root (outside the overlay) changed".into()); } }
                     if root.join("f").unwrap().read_to_string().ok().as_deref() != Some("abc") { return Some("bytes of /f changed".into()); }
                     if root.join("d").unwrap().read_dir().map(|it| it.count()).unwrap_or(99) != 0 { return Some("/d is no longer an empty directory".into()); }
                     // appending preserves the creation time (in-memory backends)
